@@ -200,7 +200,9 @@ static std::string mutate_text(Rng &r, std::string t, const std::string &kind, s
             break;
         }
         case 7: { // deep nesting
-            size_t depth = (size_t)r.pick(std::vector<int> { 50, 500, 5000 });
+            // closed nests of >= ~200 optionals make the JSGF null-transition closure blow up (known finding): keep
+            // them rare so that they do not eat the run budget, but reachable
+            size_t depth = (size_t)r.pick(std::vector<int> { 40, 40, 120, 120, 3000, 3000, 3000, 400 });
             std::string open = r.chance(0.5) ? "(" : "[", close = open == "(" ? ")" : "]";
             if (kind.find("json") != std::string::npos || kind == "featparams_file") {
                 open = r.chance(0.5) ? "[" : "{\"a\":";
@@ -210,7 +212,7 @@ static std::string mutate_text(Rng &r, std::string t, const std::string &kind, s
             for (size_t d = 0; d < depth; ++d)
                 s += open;
             s += " go ";
-            if (r.chance(0.7))
+            if (depth <= 400 && r.chance(0.7))
                 for (size_t d = 0; d < depth; ++d)
                     s += close;
             t.insert(n ? r.below(n + 1) : 0, s);
@@ -934,8 +936,24 @@ struct LoadWorld : World {
     // class trigger: "<file>/<fault kind>" of the single fault, or of the file being opened when several are attached
     std::string crash_trigger(const Json &plan, int op, const std::string &note) const override
     {
-        if (plan.gets("profile") == "C10")
-            return note.empty() ? "-" : note;
+        if (plan.gets("profile") == "C10") {
+            // the artefact kind, plus ":nest>=150" when the text nests brackets that deep (so that the known
+            // blow-up on deeply nested grammars cannot hide a hang on ordinary input)
+            std::string t = note.empty() ? "-" : note;
+            const auto &ops = plan["ops"].a;
+            if (op >= 0 && op < (int)ops.size()) {
+                int depth = 0, maxd = 0;
+                for (char c : ops[(size_t)op].gets("text")) {
+                    if (c == '[' || c == '(')
+                        maxd = std::max(maxd, ++depth);
+                    else if ((c == ']' || c == ')') && depth > 0)
+                        --depth;
+                }
+                if (maxd >= 150)
+                    t += ":nest>=150";
+            }
+            return t;
+        }
         (void)op;
         std::vector<const Json *> faults;
         for (auto &o : plan["ops"].a)
